@@ -288,6 +288,8 @@ def rule_align_dims(ctx):
             # len({o.dims for o in arrays}) == 1
             if a[0] == 'cmp' and a[1] == '==' and a[3] == const(1) and a[2][0] == 'call' and T.call_name(a[2]) == 'len' and pol is True:
                 inner = a[2][2][0]
+                if inner[0] == 'call' and T.dotted(inner[1]) in ('set', 'frozenset') and len(inner[2]) == 1 and inner[2][0][0] == 'comp':
+                    inner = ('comp', 'set') + tuple(inner[2][0][2:])         # set(<generator / list>) == {... for ...}
                 if inner[0] == 'comp' and inner[1] == 'set':
                     elt = inner[2]
                     ok = bool(elt[0] == 'attr' and elt[2] == 'dims' and elt[1][0] == 'elem' and elt[1][1] == ARR)
